@@ -418,6 +418,9 @@ func main() {
 	if a.Tier == "thorough" {
 		nPbf, nThird, nXml = nPbf*10, nThird*10, nXml*5
 	}
+	if a.Extra["stress"] != "" { // widened search: many more concurrent-cancel histories
+		nThird *= 8
+	}
 	var firstPbf, firstXml *wire.Case
 	canaryDone := 0
 	for i := 0; i < nPbf+nThird; i++ {
